@@ -50,7 +50,8 @@ theorem analyze_exact_tak (basis : Array W) (ev : Pos → Int) (sym : Pos → Li
     (goodPos_rank basis hp (by have : Facts.maxDepth = 15 := rfl; omega)) hov hdepth
     (by have : Facts.maxDepth = 15 := rfl; omega) s hs hgood
 
-/-- **`AnalyzeAll` on Tak lists exactly the first moves that attain the value** (setting of `analyze_exact_tak`) -/
+/-- **`AnalyzeAll` on Tak lists exactly the first moves that attain the value** (setting of `analyze_exact_tak`); no
+listed line starts with the pass -/
 theorem analyzeAll_exact_tak (basis : Array W) (ev : Pos → Int) (sym : Pos → List H) (hev : EvBounded basis ev)
     {cfg : Search.Cfg} (hpr : Precise cfg.opts) {o : Oracle Move} (hnc : NoCancel o) (hord : OrderOK o)
     (p : Pos) (hp : GoodPos basis p) (hply : p.move + 15 ≤ 2000000) (hov : p.gameOver.1 = false)
@@ -60,7 +61,7 @@ theorem analyzeAll_exact_tak (basis : Array W) (ev : Pos → Int) (sym : Pos →
       let lines := x.1.1; let v := x.1.2.1; let st := x.1.2.2
       1 ≤ st.depth ∧ st.depth ≤ cfg.depth ∧
       v = negamax (takGame basis ev sym) st.depth.toNat p ∧
-      (∀ line ∈ lines, ∃ m rest c, line = m :: rest ∧ p.apply basis m = .ok c ∧
+      (∀ line ∈ lines, ∃ m rest c, line = m :: rest ∧ m.type ≠ Facts.mtPass ∧ p.apply basis m = .ok c ∧
         v = -(negamax (takGame basis ev sym) (st.depth.toNat - 1) c)) ∧
       (∀ m ∈ p.allMoves, ∀ c, p.apply basis m = .ok c →
         v = -(negamax (takGame basis ev sym) (st.depth.toNat - 1) c) →
